@@ -6,13 +6,23 @@ GROUPS = [dict(g) for g in _c02.GROUPS if g["name"].startswith("hmm_vit_eval")] 
     dict(name="int16_float_exact", harness="harness/C18_lemmas.c", entry="r_int16_float_exact", allow_no_body=["*"],
          bounded=None),
 ]
+NATIVE = [
+    dict(name="feature_finite_enum", source="native/feature_finite_enum.c", repo_sources="ALL_EXCEPT:", cflags=["-w", "-fsanitize=address"],
+         args={"quick": [], "thorough": []}, exhaustive=True,
+         bound="EVERY combination of 13 signals (silence, full-scale square waves, impulses, DC offsets, white noise, zero padding, ramp, step) x int16|float samples x "
+               "transform dct|legacy|htk x cepstra|logspec|smoothspec x remove_noise x remove_dc x lifter 0|22 (x cmn live|batch|none, varnorm for the cepstral configurations): 3 744 runs of 0.5 s "
+               "through the real fe_process / fe_end / feat_s2mfc2feat_live / cmn text export-import; every value checked with isfinite()"),
+]
 ASSUMPTIONS = [
     "path scores: the HMM invariant WF_HMM (scores WORST_SCORE or in [WORST_SCORE + 2^20, 0], senone scores in [0, 32767]) is the precondition; signed-overflow obligations are switched on in these proofs",
     "int16_float_exact is an arithmetic lemma over the scale constant of the real header (expressions as they occur in fe_read_frame_* / overflow_append), not a contract on a function",
 ]
 HAND_LEMMAS = ["scores never wrap along a path: each step keeps every state score in [WORST_SCORE, 0] (postcondition) and fsg_search renormalises before the best score can approach WORST_SCORE + 2^20 (renormalisation NOT under contract)"]
-NOT_COVERED = ["finiteness of cepstra and dynamic features (FFT, log, DCT: transcendental floating point over loops; seeded change C18_A)", "channel-normalisation state export/import as text", "senone score range and best-score normalisation in ptm_mgau / s2_semi_mgau (seeded change C18_B)", "hmm_normalize / renormalisation"]
+NOT_COVERED = ["finiteness of cepstra, dynamic features and CMN state is decided only for the enumerated signal x configuration family by the native run feature_finite_enum (bounded stand-in, never counted as proved): "
+               "the FFT / log / DCT pipeline is transcendental floating point over loops, outside what CBMC contracts decided here",
+               "senone score range and best-score normalisation in ptm_mgau / s2_semi_mgau / ms_mgau (seeded change C18_B: re-scoring an earlier frame with a different active senone set) -- NOT decided",
+               "hmm_normalize / renormalisation in fsg_search", "dither on, warping, other sample rates / filterbank sizes, the lda transform"]
 CLAIM = dict(
-    text="Integer clauses only: each Viterbi step of the 3-state evaluators keeps every state and exit score clamped in [WORST_SCORE, 0] and performs no signed overflow, for all inputs satisfying the HMM invariant (same proofs as C02 with overflow obligations on); the int16 -> float32 sample scaling round trip is exact for all 65 536 sample values. Finiteness of features, CMN text round trip and the 16-bit acoustic-score range are NOT decided.",
-    note="integer clauses only; floating-point feature pipeline, CMN and senone scoring not covered; trusted: CBMC 6.11 float model",
-    technique="CBMC function contracts (goto-instrument --dfcc) with signed-overflow obligations; full-domain CBMC lemma over 16-bit inputs")
+    text="Integer clauses only: each Viterbi step of the 3-state evaluators keeps every state and exit score clamped in [WORST_SCORE, 0] and performs no signed overflow, for all inputs satisfying the HMM invariant (same proofs as C02 with overflow obligations on); the int16 -> float32 sample scaling round trip is exact for all 65 536 sample values. Finiteness of every cepstral / dynamic-feature value and of the CMN state (with text export -> import -> export stability) is checked by a native enumeration of 13 extreme signals x 2 sample types x 144 front-end / feature configurations through the real pipeline (bounded stand-in, not proof), which found a genuine defect (batch CMN of digital silence = 0/0 -> NaN features), repaired. The 16-bit acoustic-score range and best-score normalisation are NOT decided.",
+    note="integer clauses by contract; feature / CMN finiteness by a bounded native enumeration of extreme signals (not proof); senone scoring not covered; trusted: CBMC 6.11, libm isfinite",
+    technique="CBMC function contracts (goto-instrument --dfcc) with signed-overflow obligations; full-domain CBMC lemma over 16-bit inputs; native enumeration of extreme signals x configurations as bounded stand-in for the floating-point pipeline")
